@@ -71,6 +71,9 @@ def build_topology(spec, variant=0):
         if spec['dose'] == i:
             kwargs['doses'] = (Bolus.create('AMT'),)
             dec.doses[nm] = [('Bolus', 1, 'AMT')]
+        if spec.get('dose2') == i:
+            kwargs['doses'] = (_W['Infusion'].create('AMT', admid=2, duration='D2'),)
+            dec.doses[nm] = [('Infusion', 2, 'AMT')]
         if variant and i == (variant % n):
             kwargs['input'] = Expr.symbol(f'R_{nm}')
             dec.inputs[nm] = sympy.Symbol(f'R_{nm}')
@@ -332,6 +335,8 @@ SEEDS = [
     dict(n=2, edges=((0, 1),), outs=(0, 1), dose=0),
     dict(n=3, edges=((0, 1), (1, 2), (2, 1)), outs=(0, 1, 0), dose=0),
     dict(n=2, edges=((0, 1), (1, 0)), outs=(1, 0), dose=1),
+    # parent / metabolite with oral + iv dosing: two dosing compartments, two compartments with an output flow
+    dict(n=3, edges=((0, 1), (1, 2)), outs=(0, 1, 1), dose=0, dose2=1),
 ]
 
 
@@ -358,6 +363,9 @@ def op_instances(dec):
                 inst.append(('move_dose', a, b))
                 break
         inst.append(('remove_dose', a))
+    for a in dosed:
+        inst.append(('set_lag', a))
+        inst.append(('set_bio', a))
     for a in comps[-1:]:
         inst.append(('set_dose', a))
         inst.append(('add_dose', a))
